@@ -15,7 +15,7 @@ var c18Srcs = []string{"int", "int32", "int64", "float32", "float64", "decstr", 
 var c18Dsts = []string{"Int", "Int32", "Int64", "Float32", "Float64"}
 
 func C18_Jobs() []string {
-	out := []string{"literal/huge-strings"}
+	out := []string{"literal/huge-strings", "literal/decimal-forms"}
 	for _, s := range c18Srcs {
 		for _, d := range c18Dsts {
 			if s == "fltstr" && d[0] == 'I' {
@@ -71,6 +71,44 @@ func c18CheckIssue(errs z.ZogIssueList, untouched bool) {
 }
 
 func C18_Run(job string) {
+	if job == "literal/decimal-forms" {
+		// an integer schema reads a string as a DECIMAL numeral (sign, digits, leading zeros
+		// allowed) and reports everything else: no radix prefixes, no digit separators
+		type lit struct {
+			s    string
+			ok   bool
+			want int
+		}
+		lits := []lit{{"010", true, 10}, {"0123", true, 123}, {"-017", true, -17}, {"+5", true, 5}, {"08", true, 8}, {"00", true, 0}, {"0644", true, 644},
+			{"0x10", false, 0}, {"0b11", false, 0}, {"0o17", false, 0}, {"1_000", false, 0}, {"0_7", false, 0}, {"1e3", false, 0}, {"12 ", false, 0}, {"٣", false, 0}}
+		l := lits[v.Choice("lit", len(lits))]
+		i, i64, i32 := 77, int64(77), int32(77)
+		var e1, e2, e3 z.ZogIssueList
+		var d struct{ Q int }
+		dq := 0
+		switch v.Choice("via", 2) {
+		case 0:
+			e1, e2, e3 = z.Int().Parse(l.s, &i), z.Int64().Parse(l.s, &i64), z.Int32().Parse(l.s, &i32)
+		default:
+			em := z.Struct(z.Schema{"q": z.Int()}).Parse(map[string]any{"q": l.s}, &d)
+			e1, e2, e3 = em["q"], em["q"], em["q"]
+			i, i64, i32 = d.Q, int64(d.Q), int32(d.Q)
+			if !l.ok {
+				i, i64, i32 = 77, 77, 77
+			}
+		}
+		_ = dq
+		if l.ok {
+			v.Cover("success")
+			v.Assert(len(e1) == 0 && len(e2) == 0 && len(e3) == 0, "C18:representable-value-rejected")
+			v.Assert(i == l.want && i64 == int64(l.want) && i32 == int32(l.want), "C18:value-changed")
+		} else {
+			v.Cover("issue")
+			v.Assert(len(e1) == 1 && len(e2) == 1 && len(e3) == 1 && e1[0].Code == "coerce", "C18:out-of-range-accepted")
+			v.Assert(i == 77 && i64 == 77 && i32 == 77, "C18:value-changed")
+		}
+		return
+	}
 	if job == "literal/huge-strings" {
 		// integer-syntax strings beyond the destination's range are reported, never saturated
 		lits := []string{"9223372036854775808", "99999999999999999999", "-9223372036854775809", "18446744073709551616", "2147483648", "-2147483649", "1e19", "1e400"}
